@@ -89,6 +89,12 @@ def get_line_range_for_node(
                 return True
         return False
 
+    end_lineno = getattr(node, "end_lineno", None)
+    if end_lineno is not None:
+        # The parser knows where the node ends; the last line may be indented less
+        # than the first one (a closing bracket or the end of a triple-quoted string).
+        return list(range(first_lineno, max(end_lineno + 1, last_lineno)))
+
     first_line = lines[first_lineno - 1]
 
     while last_lineno - 1 < len(lines) and is_part_of_same_node(
